@@ -347,6 +347,43 @@ def loops(ck, agg):
     return n
 
 
+def stale_report(ck, agg):
+    """R15.7: what _net_update() returns describes the frame that is in frame_buf.  The mesh layer acts on (returned type, frame_buf)
+    as a pair (lookup / release / address request handling), so a type remembered from an earlier frame must not be returned once a later
+    frame - in particular a discarded one with invalid addresses - has been decoded into frame_buf: the master would answer to an
+    unvalidated address.  _net_update() is interpreted for three reads with its two handlers summarised (they return an unknown
+    (keep_updating, type) pair); on every return the returned type must be 0 / a constant, or come from the handler that ran on the most
+    recently decoded frame."""
+    P = ck.prog
+    mix = P.cls("network.mixins", "NetworkMixin")
+    f = P.method(mix, "_net_update")
+    n = 0
+    for clsmod, clsname in (("rf24_network", "RF24Network"), ("rf24_mesh", "RF24Mesh")):
+        nn = net.NetNode(ck, clsmod, clsname)
+
+        def handler(model, it, st, fr, node, target, args, kwargs):
+            k = len([e for e in st.trace if e.kind == "unpack"])
+            it.event(st, fr, "handled", node, k)
+            return [(st, Seq([Sym(st.fresh_name("keep"), "bool"), Sym(("handled-type", k), "int", rng=(0, 255))], "tuple"))]
+        for hn in ("_handle_frame_for_this_node", "_handle_frame_for_other_node"):
+            nn.model.opaque[P.method(mix, hn).qualname] = handler
+        nn.model.loop_key = net.radio_loop_key(nn, trace_kinds=("unpack", "handled"))
+        st, node = nn.fresh()
+        outs = nn.run(f, node, [], st, limits=Limits(max_paths=20000, loop_unroll=3, depth=14, concrete_loop=10))
+        for out in outs:
+            if out.kind != "return":
+                continue
+            n += 1
+            decoded = len([e for e in out.trace if e.kind == "unpack"])
+            v = norm(out.value)
+            src = v.name[1] if isinstance(v, Sym) and isinstance(v.name, tuple) and v.name[0] == "handled-type" else None
+            ok = isinstance(v, Const) or (src is not None and src == decoded)
+            agg.add("R15.7", f, "the returned message type belongs to the frame that is in frame_buf (never a type remembered from an earlier frame)", ok,
+                    "%s: %d frames were decoded into frame_buf, the returned type %r stems from frame %s - the caller (RF24Mesh.update) would treat the last, "
+                    "possibly discarded frame as a message of that type and answer to its unvalidated address" % (clsname, decoded, v, src))
+    return n
+
+
 def finite_iter(x):
     """an iterable expression that can only yield finitely many items: containers and views of them, range/enumerate/zip/.. over finite
     arguments, comprehensions and generator expressions over finite iterables.  (There is no generator *function*, `iter(callable, ..)`,
@@ -477,7 +514,8 @@ def run(ck):
         "(mesh: node id 0 and 5) is interpreted on an arbitrary received payload (RF24.read summarised as 'None or 1..32 unknown bytes') with "
         "_write/_write_to_pipe inlined and path merging; every subscript, struct.pack/unpack, bytes([..]) and explicit raise that is evaluated "
         "is collected even from merged paths and must be discharged by the abstract values and guard facts, else by the frozen table (reason per "
-        "entry), else it is a finding. R15.2 (= R05.3/R05.4): both address validations dominate queueing and forwarding. R15.4: every loop "
+        "entry), else it is a finding. R15.2 (= R05.3/R05.4): both address validations dominate queueing and forwarding. R15.7: over three reads, "
+        "the type _net_update() returns stems from the frame last decoded into frame_buf (the mesh layer acts on the pair). R15.4: every loop "
         "reachable from update() is classified (clock-bounded / consumes the RX FIFO / decreasing counter or shifted-out mask / finite iterator).")
     ck.not_decided = ["user callbacks (block_less_callback) are an assumption: they are the user's code"]
     agg = Agg(ck)
@@ -488,7 +526,9 @@ def run(ck):
     nnode.merge_funcs = set()
     n2 = c05.receive(ck, agg, nnode)
     n3 = loops(ck, agg)
+    n4 = stale_report(ck, agg)
     agg.flush()
     ck.floor("R15.1", "update() analyses", n1, 12)
     ck.floor("R15.1", "raise-capable site evaluations", sites, 40)
     ck.floor("R15.4", "loops reachable from update()", n3, 12)
+    ck.floor("R15.7", "_net_update() return paths over three reads", n4, 8)
